@@ -3,6 +3,7 @@
 R20.1  string-shape abstract interpretation of every NameSanitizer name function: for *every* input string the result is
        non-empty, starts with an identifier-start character, contains only identifier characters, and is not a keyword
 R20.5  parameter names stored for the generators are fixed points of the sanitiser the generators re-apply (no suffix glued on after sanitising)
+R20.9  no named schema is filtered out between class / module de-collision and emission (none dropped)                        [= R1.8, file filter]
 R20.8  the sanitised key a schema is registered under never shadows another declared schema's name (both declarations survive, in either order)  [= R2.14]
 R20.7  schema references are resolved by their exact name, never by a sanitised / normalised key (names that sanitise alike stay distinct)  [= R2.10]
 R20.6  the tag grouping key is at least as coarse as the module / class / attribute names derived from a tag (tags have no de-dup step)     [= R7.7]
@@ -95,6 +96,12 @@ def run(repo: Repo, rep: Report, tier: str) -> None:
     from rules.c02 import rule_key_does_not_shadow_declared_name
 
     rule_key_does_not_shadow_declared_name(repo, rep, "R20.8")
+    # R20.9: no named schema is taken out between de-collision and emission (a schema filtered out there is dropped, and the schemas that
+    # collided with it are no longer told apart)                                                                   [= R1.8, file filter]
+    from rules.c01 import _models_emitter_rules
+    from rules._reuse import _Filter as _F209
+
+    _models_emitter_rules(repo, _F209(rep, {"R1.8": "R20.9"}, only=lambda subj: "file filter" in subj))
     # ---------------------------------------------------------------- R20.3 validated returns
     eg = repo.module("visit.model.enum_generator").classes.get("EnumGenerator")
     if eg is None:
